@@ -25,6 +25,12 @@ impl CancelIo for CancelIoImpl {
     unsafe fn cancel(&self) -> Option<std::io::Result<()>> {
         if let Some(e) = self.0.take() {
             if let Some(co) = e.co.take() {
+                // the io timer armed for the cancelled operation must not expire on a later
+                // operation when the socket outlives the coroutine (see `del_fd`)
+                #[cfg(feature = "io_timeout")]
+                if let Some(h) = e.timer.borrow_mut().take() {
+                    h.with_mut_data(|value| value.data.event_data = std::ptr::null_mut());
+                }
                 get_scheduler().schedule(co);
                 return Some(Ok(()));
             }
